@@ -40,7 +40,9 @@ LAYOUTS = [
     [0, 1, 0],
     [0, 0, 1],
     [1, 0, 0],
+    [0, 0, 0],      # (index 6) as [0, 0, 0] with an EMPTY gram in the middle: offered once, done whatever the answer, the rest goes on
 ]
+EMPTY_AT = {6: 1}
 UNREACH = [errno.ECONNREFUSED, errno.EHOSTUNREACH, errno.ENOENT, errno.ECONNRESET, errno.ENETRESET, errno.ENETUNREACH,
            errno.ENETDOWN, errno.EHOSTDOWN, errno.ETIMEDOUT, errno.ETIME]
 # answer kinds: ("n", how) accepts a byte count, ("e", errno) raises
@@ -92,10 +94,12 @@ def jobs(tier):
 class World:
     """reference bookkeeping shared by both systems: per-destination ideal sender fed with the observed calls and answers"""
 
-    def __init__(self, layout, answer_kind, pair=(DA, DB), shared=False):
+    def __init__(self, layout, answer_kind, pair=(DA, DB), shared=False, empty=None):
         self.answer_kind = answer_kind      # callable(ncall, n) -> ("n", count) | ("e", errno)
         self.dsts = [pair[0] if d == 0 else pair[1] for d in layout]
         self.grams = [GRAMS[0 if shared else i] for i in range(len(layout))]   # shared: one gram object fanned out to every entry
+        if empty is not None and not shared:
+            self.grams[empty] = b""
         self.pending = {}                   # dst -> list of [gram index, remaining bytes]
         for i, d in enumerate(self.dsts):
             self.pending.setdefault(d, []).append([i, self.grams[i]])
@@ -151,7 +155,9 @@ class World:
         self.calls.append((data.decode("latin-1"), dname(dst), self.label(kind)))
         self.lastkind[dst] = lab
         if not self.desync:
-            if cnt >= 0:
+            if n == 0:
+                q.pop(0)       # an empty gram has nothing left to send whatever the transport answers
+            elif cnt >= 0:
                 self.accepted[dst] += data[:cnt]
                 q[0][1] = q[0][1][cnt:]
                 if not q[0][1]:
@@ -191,7 +197,7 @@ def _uxd_sandbox():
 
 def run_world(system, greedy, li, answer_kind, extra_rounds, shared=False):
     layout = LAYOUTS[li]
-    w = World(layout, answer_kind, pair=(UA, UB) if system == "uxd" else (DA, DB), shared=shared)
+    w = World(layout, answer_kind, pair=(UA, UB) if system == "uxd" else (DA, DB), shared=shared, empty=EMPTY_AT.get(li))
     escaped = None
     states = []
 
